@@ -35,7 +35,7 @@ InitSrv(s) == LET sp == SProfiles[ServerInit[s]] IN
    traits |-> sp.traits, vu |-> sp.vu, parent |-> SParent[s], apps |-> {}, ctr |-> EmptyFn]
 
 Init ==
-  /\ st = [clock |-> 0,
+  /\ st = [clock |-> 0, nea |-> NoNum,
            servers |-> [s \in {x \in AllServers : ServerInit[x] # 0} |-> InitSrv(s)],
            buckets |-> [b \in DOMAIN BParent |->
                           [level |-> BLevel[b], parent |-> BParent[b], ctr |-> EmptyFn]],
@@ -236,10 +236,14 @@ PlacementTuples ==
                             st.apps[names[j]].server, st.apps[names[j]].expiry>>]
 
 InvC01 == Fresh => C01cap(st) /\ C01free(st) /\ C01single(st) /\ C01views(st)
-InvC03 == Fresh => C03post(st) /\ C03assign(st, PlacementTuples) /\ C03renew(st, PlacementTuples)
+InvC03 == Fresh => /\ C03post(st) /\ C03assign(st, PlacementTuples) /\ C03renew(st, PlacementTuples)
+                   /\ C03leaseEnd(st, PlacementTuples)
 InvC04 == Fresh => C04limit(st) /\ C04counters(st)
 InvC05 == Fresh => C05unique(st) /\ C05range(st) /\ C05placedHas(st) /\ C05pendingNone(st)
                    /\ C05avail(st)
+(* beyond the listed properties: the wake-up time the cell reports is the     *)
+(* earliest pending retention expiry, and it lies in the future              *)
+InvNextEvent == Fresh => (st.nea = NoNum \/ st.nea > st.clock)
 InvC02 == (Fresh /\ cy.probe # "") => C02probe(cy.pre, st, FlatQ, cy.probe)
 InvC06 == Fresh => /\ C06perm(cy.pre, cy.qs)
                    /\ \A k \in DOMAIN cy.qs :
